@@ -9,7 +9,7 @@ VX = os.path.join(VERIF, 'tools', 'vx', 'target', 'release', 'vx')
 REPO = os.environ.get('VERIF_REPO', '/repo')
 
 EAGER_METHODS = ["iter_attacks", "iter_attacks_to", "iter_attacks_from", "iter_attacks_from_id"]
-EAGER_ITER_RECEIVERS = ["argument_set()", "self.0", "self.arguments"]
+EAGER_ITER_RECEIVERS = ["argument_set()", "self.0", "self.arguments", "assignment"]
 
 class Undecided(Exception):
     """exit 2: the machinery cannot decide (never an alarm)."""
@@ -38,6 +38,8 @@ def run_vx(unit_list, units, workdir):
                 it = {"file": e.file, "sel": e.sel}
                 if e.opts.get('partial'):
                     it['partial'] = True
+                if e.opts.get('no_eager_iter'):
+                    it['no_eager_iter'] = True
                 for k in ('into_as', 'slice_before', 'ret_name'):
                     if k in e.opts:
                         it[k] = e.opts[k]
@@ -171,6 +173,8 @@ PRELUDE = """// GENERATED by /verif/vlib/assemble.py from /repo/src -- do not ed
 #![allow(unused_imports, unused_variables, unused_mut, unused_braces, unused_parens, dead_code, non_snake_case, unused_assignments, redundant_semicolons)]
 use vstd::prelude::*;
 verus! {
+// the crate is verified for 64-bit targets (usize/isize are 64 bits wide)
+global size_of usize == 8;
 """
 
 def assemble(unit_names, workdir, repo=None):
@@ -207,6 +211,11 @@ def assemble(unit_names, workdir, repo=None):
         open_container = None
         for e in u.entries:
             if isinstance(e, vspec.Verbatim):
+                if e.inside:
+                    if open_container is None:
+                        raise Undecided("%s:%d: //@ inside without an open impl/trait block" % (u.path, e.line))
+                    emit(e.text, un, "verbatim@%s:%d" % (os.path.basename(u.path), e.line))
+                    continue
                 if open_container is not None:
                     emit("}\n", un, None)
                     open_container = None
@@ -220,6 +229,8 @@ def assemble(unit_names, workdir, repo=None):
                     open_container = None
                 if cont:
                     header = e.opts.get('container', cont)
+                    if header.startswith('trait '):
+                        header = 'pub ' + header
                     emit(header + " {\n", un, None)
                     open_container = cont
             text = weave(e, o)
